@@ -180,6 +180,15 @@ func TestKnownRootSwap(t *testing.T) {
 	})
 }
 
+// TestKnownReadStreams: a sequential Read hands out the bytes of a damaged leaf before it verifies the leaf
+func TestKnownReadStreams(t *testing.T) {
+	knownPin(t, knownStream, "cafs chunkReader.Read verifies a leaf only once it has been read to its end: with a buffer smaller than the leaf (always the case for io.Copy's 32 KiB buffer and production leaf sizes) the altered bytes of a damaged leaf are returned with a nil error, and WriteTo(io.Writer) writes them to the destination, before the terminal 'hash verification failed'", func() error {
+		return withoutExclusions(func() error {
+			return runCase(caseT{Obj: pinObj, Other: pinOther, Rel: "random", Corr: corrT{Kind: "flip", Target: 1, Pos: 0, Bit: 0}, Obs: pinObs("read", "readall", "writeto")}, false)
+		})
+	})
+}
+
 // TestReplayJournal re-executes the case left in $VERIF_REPLAY_JOURNAL by a run that died or failed
 func TestReplayJournal(t *testing.T) {
 	p := os.Getenv("VERIF_REPLAY_JOURNAL")
